@@ -3,6 +3,7 @@ package rules
 import (
 	"fmt"
 	"go/ast"
+	"go/token"
 	"go/types"
 	"strings"
 
@@ -121,6 +122,16 @@ func VerdictDependence(p *core.Program, r *core.Report, rule string) {
 func AlwaysAllowedParity(p *core.Program, r *core.Report, rule string) {
 	sites := []*core.FuncDecl{p.Func(core.PkgEval, "PolicyEngine", "CheckIfAllowed"), p.Func(core.PkgEval, "PolicyEngine", "allAllowedConnectionsBetweenPeers")}
 	var preds [2]map[string]bool
+	policyCall := func(fn *types.Func) bool {
+		if fn == nil {
+			return false
+		}
+		switch fn.Name() {
+		case "hasConnectionResult", "allowedXgressConnection", "allAllowedXgressConnections", "getConnectionResult":
+			return p.IsModuleFunc(fn)
+		}
+		return false
+	}
 	for i, fd := range sites {
 		if fd == nil {
 			r.Lost(rule, []string{"CheckIfAllowed", "allAllowedConnectionsBetweenPeers"}[i])
@@ -128,91 +139,177 @@ func AlwaysAllowedParity(p *core.Program, r *core.Report, rule string) {
 		}
 		info := fd.Pkg.TypesInfo
 		preds[i] = map[string]bool{}
-		// the guard: an if whose condition is a disjunction of module predicate calls and whose body returns the top verdict
-		var guard *ast.IfStmt
-		ast.Inspect(fd.Decl.Body, func(n ast.Node) bool {
-			ifs, ok := n.(*ast.IfStmt)
-			if !ok || guard != nil {
-				return true
-			}
-			hasSelf := false
-			ast.Inspect(ifs.Cond, func(m ast.Node) bool {
-				if c, ok := m.(*ast.CallExpr); ok {
-					if fn := core.Callee(info, c); fn != nil && fn.Name() == "isPodToItself" {
-						hasSelf = true
+		// The guard is read off the paths, not off one if-statement: G = the disjunction of the path conditions of the
+		// exits that return the top verdict before any cache or policy call (helpers inlined). Its atoms, with the two
+		// peers written by role, are the site's always-allowed predicates.
+		roleOf := func(path string) string {
+			// a peer variable: by the parameter (first = source, second = destination) it derives from
+			base := facts.StripVersions(path)
+			var obj types.Object
+			ast.Inspect(fd.Decl, func(n ast.Node) bool {
+				if id, ok := n.(*ast.Ident); ok && id.Name == base && obj == nil {
+					if o := info.ObjectOf(id); o != nil {
+						if _, isV := o.(*types.Var); isV {
+							obj = o
+						}
 					}
 				}
-				return true
+				return obj == nil
 			})
-			if hasSelf {
-				guard = ifs
+			if obj == nil {
+				return path
 			}
-			return true
-		})
-		if guard == nil {
-			r.Bad(rule, fd.Key()+": a pod may always talk to itself", p.Pos(fd.Decl.Pos()), "the always-allowed guard (isPodToItself || isPeerNodeIP ...) is gone")
+			switch paramOrigin(fd, obj, 0) {
+			case 0:
+				return "#src"
+			case 1:
+				return "#dst"
+			}
+			return path
+		}
+		normalise := func(a string) string {
+			// replace identifiers inside the atom by their role
+			var b strings.Builder
+			isId := func(c byte) bool {
+				return c == '_' || c == '#' || c >= '0' && c <= '9' || c >= 'a' && c <= 'z' || c >= 'A' && c <= 'Z'
+			}
+			for k := 0; k < len(a); {
+				if isId(a[k]) {
+					e := k
+					for e < len(a) && isId(a[e]) {
+						e++
+					}
+					word := a[k:e]
+					if (k == 0 || (a[k-1] != '.' && a[k-1] != ':')) || (k > 0 && a[k-1] == ':') {
+						if rw := roleOf(word); strings.HasPrefix(rw, "#") {
+							word = rw
+						}
+					}
+					b.WriteString(word)
+					k = e
+					continue
+				}
+				b.WriteByte(a[k])
+				k++
+			}
+			return b.String()
+		}
+		w := facts.NewWalker(info)
+		w.Inline = true
+		// only pure combinations of other predicates are unfolded (a helper that names the always-allowed cases); a
+		// predicate that compares something itself stays one proposition
+		w.NoInline = func(in *types.Info, c *ast.CallExpr) bool {
+			ib := p.InlineBool(in, c)
+			if ib == nil {
+				return true
+			}
+			leaf := len(ib.Guards) > 0
+			ast.Inspect(ib.Expr, func(n ast.Node) bool {
+				switch x := n.(type) {
+				case *ast.BinaryExpr:
+					if x.Op != token.LOR && x.Op != token.LAND {
+						leaf = true
+					}
+				case *ast.CallExpr:
+					if fn := core.Callee(ib.Info, x); fn == nil || !p.IsModuleFunc(fn) {
+						leaf = true
+					}
+				}
+				return !leaf
+			})
+			return leaf
+		}
+		w.Transfer = func(st int, n ast.Node, f facts.Formula) int {
+			if c, ok := n.(*ast.CallExpr); ok && policyCall(core.Callee(info, c)) {
+				return 1
+			}
+			return st
+		}
+		var guard facts.Formula = facts.False{}
+		nTop := 0
+		var firstTop ast.Node
+		isTop := func(e ast.Expr) bool {
+			if v, ok := core.ConstString(info, e); ok && v == "true" {
+				return true
+			}
+			if c, ok := ast.Unparen(e).(*ast.CallExpr); ok {
+				if fn := core.Callee(info, c); fn != nil && fn.Name() == "MakeConnectionSet" && len(c.Args) == 1 {
+					if v, ok := core.ConstString(info, c.Args[0]); ok && v == "true" {
+						return true
+					}
+				}
+			}
+			return false
+		}
+		w.OnExit = func(st int, ret *ast.ReturnStmt, f facts.Formula) {
+			if w.FuncLitDepth > 0 || ret == nil || len(ret.Results) == 0 || st != 0 || !isTop(ret.Results[0]) {
+				return
+			}
+			if IsErrorReturn(p, w, fd.Obj, ret, f) {
+				return
+			}
+			nTop++
+			if firstTop == nil {
+				firstTop = ret
+			}
+			guard = facts.MkOr(guard, f)
+		}
+		// at every cache / policy call the guard's predicates are known to be false
+		late := ""
+		w.OnExpr = func(e ast.Expr, f facts.Formula) {
+			c, ok := e.(*ast.CallExpr)
+			if !ok || w.FuncLitDepth > 0 || !policyCall(core.Callee(info, c)) {
+				return
+			}
+			w.AtCalls = append(w.AtCalls, facts.CallFact{Call: c, F: f})
+		}
+		w.WalkBody(fd.Decl.Body, nil)
+		if nTop == 0 {
+			r.Bad(rule, fd.Key()+": a pod may always talk to itself", p.Pos(fd.Decl.Pos()), "the always-allowed guard is gone: no exit returns the top verdict before the cache and the policies are consulted")
 			continue
 		}
-		ast.Inspect(guard.Cond, func(m ast.Node) bool {
-			if c, ok := m.(*ast.CallExpr); ok {
-				if fn := core.Callee(info, c); fn != nil && p.IsModuleFunc(fn) {
-					var args []string
-					for _, a := range c.Args {
-						// normalise the two argument spellings (srcPeer/srcK8sPeer) to positions
-						args = append(args, roleWord(core.ExprStr(a)))
-					}
-					preds[i][fn.Name()+"("+strings.Join(args, ",")+")"] = true
+		// the atoms of the guard that are about the two peers (error tests etc. are background)
+		var gAtoms []string
+		for _, a := range facts.Atoms(guard) {
+			na := normalise(facts.StripVersions(a))
+			if strings.Contains(na, "#src") || strings.Contains(na, "#dst") {
+				if strings.HasPrefix(a, "nil:") {
+					continue
 				}
+				gAtoms = append(gAtoms, a)
+				preds[i][na] = true
 			}
-			return true
-		})
-		// body returns the top element
-		okTop := false
-		ast.Inspect(guard.Body, func(m ast.Node) bool {
-			if ret, ok := m.(*ast.ReturnStmt); ok && len(ret.Results) > 0 {
-				if v, ok := core.ConstString(info, ret.Results[0]); ok && v == "true" {
-					okTop = true
-				}
-				if c, ok := ast.Unparen(ret.Results[0]).(*ast.CallExpr); ok {
-					if fn := core.Callee(info, c); fn != nil && fn.Name() == "MakeConnectionSet" && len(c.Args) == 1 {
-						if v, ok := core.ConstString(info, c.Args[0]); ok && v == "true" {
-							okTop = true
-						}
-					}
-				}
-			}
-			return true
-		})
-		r.Check(okTop, rule, fd.Key()+": the always-allowed guard returns allow-all", p.Pos(guard.Pos()), "returns true / MakeConnectionSet(true)", "the always-allowed guard no longer returns the top verdict")
-		// the guard dominates every policy/cache call
-		bad := ""
-		ast.Inspect(fd.Decl.Body, func(m ast.Node) bool {
-			c, ok := m.(*ast.CallExpr)
-			if !ok || c.Pos() < guard.End() {
-				return true
-			}
-			return true
-		})
-		// calls evaluating policies or the cache must come after the guard (structurally: positioned after it at top level)
-		for _, st := range fd.Decl.Body.List {
-			if st.Pos() >= guard.Pos() {
-				break
-			}
-			ast.Inspect(st, func(m ast.Node) bool {
-				if c, ok := m.(*ast.CallExpr); ok {
-					if fn := core.Callee(info, c); fn != nil {
-						switch fn.Name() {
-						case "hasConnectionResult", "allowedXgressConnection", "allAllowedXgressConnections":
-							bad = fn.Name() + " at " + p.Pos(c.Pos())
-						}
-					}
-				}
-				return true
-			})
 		}
-		r.Check(bad == "", rule, fd.Key()+": the always-allowed guard precedes cache and policy evaluation", p.Pos(guard.Pos()), "no cache lookup or policy evaluation before the guard", "cache or policies are consulted before the always-allowed guard: "+bad)
+		var disj facts.Formula = facts.False{}
+		for _, a := range gAtoms {
+			disj = facts.MkOr(disj, facts.Atom(a))
+		}
+		// G must hold whenever one of its predicates holds (each predicate alone is sufficient): G is their disjunction
+		// modulo the background (error tests that precede it)
+		okDisj := true
+		for _, a := range gAtoms {
+			// exists a guard path that this atom alone enables: guard restricted by the other atoms false is implied by a
+			rest := facts.Formula(facts.True{})
+			for _, b := range gAtoms {
+				if b != a {
+					rest = facts.MkAnd(rest, facts.MkNot(facts.Atom(b)))
+				}
+			}
+			if !facts.Satisfiable(facts.MkAnd(facts.MkAnd(guard, facts.Atom(a)), rest)) {
+				okDisj = false
+			}
+		}
+		r.Check(okDisj && facts.Entails(guard, disj), rule, fd.Key()+": the always-allowed guard returns allow-all", p.Pos(firstTop.Pos()), fmt.Sprintf("top verdict before any cache / policy call under %s", facts.StripVersions(facts.String(disj))), "the always-allowed guard no longer returns the top verdict for each of its cases alone")
+		for _, cf := range w.AtCalls {
+			for _, a := range gAtoms {
+				if !facts.Entails(cf.F, facts.MkNot(facts.Atom(a))) && late == "" {
+					late = core.Callee(info, cf.Call).Name() + " at " + p.Pos(cf.Call.Pos()) + " can run while " + facts.StripVersions(a) + " holds"
+				}
+			}
+		}
+		r.Check(late == "", rule, fd.Key()+": the always-allowed guard precedes cache and policy evaluation", p.Pos(firstTop.Pos()), "no cache lookup or policy evaluation before the guard", "cache or policies are consulted before the always-allowed guard: "+late)
 	}
-	if preds[0] != nil && preds[1] != nil {
+	if preds[0] != nil && preds[1] != nil && len(preds[0])+len(preds[1]) > 0 {
 		same := len(preds[0]) == len(preds[1])
 		for k := range preds[0] {
 			if !preds[1][k] {
@@ -221,6 +318,71 @@ func AlwaysAllowedParity(p *core.Program, r *core.Report, rule string) {
 		}
 		r.Check(same && len(preds[0]) >= 3, rule, "eval and list use the same always-allowed predicates", "-", fmt.Sprintf("%v", keys(preds[0])), fmt.Sprintf("eval guards with %v, list with %v", keys(preds[0]), keys(preds[1])))
 	}
+}
+
+// paramOrigin: the index of the single parameter that obj (a local or a parameter) derives from through its definitions
+// (-1: none or several).
+func paramOrigin(fd *core.FuncDecl, obj types.Object, depth int) int {
+	info := fd.Pkg.TypesInfo
+	sig := fd.Obj.Type().(*types.Signature)
+	for i := 0; i < sig.Params().Len(); i++ {
+		if types.Object(sig.Params().At(i)) == obj {
+			return i
+		}
+	}
+	if depth > 3 {
+		return -1
+	}
+	res := -2
+	ast.Inspect(fd.Decl.Body, func(n ast.Node) bool {
+		as, ok := n.(*ast.AssignStmt)
+		if !ok {
+			return true
+		}
+		for li, l := range as.Lhs {
+			id, isId := l.(*ast.Ident)
+			if !isId || info.ObjectOf(id) != obj {
+				continue
+			}
+			var rhs ast.Expr
+			if len(as.Rhs) == len(as.Lhs) {
+				rhs = as.Rhs[li]
+			} else if len(as.Rhs) == 1 {
+				rhs = as.Rhs[0]
+			}
+			if rhs == nil {
+				continue
+			}
+			ast.Inspect(rhs, func(m ast.Node) bool {
+				mid, isM := m.(*ast.Ident)
+				if !isM {
+					return true
+				}
+				o := info.ObjectOf(mid)
+				v, isV := o.(*types.Var)
+				if !isV || v.IsField() || o == obj || v.Parent() == nil || v.Pkg() == nil || v.Parent() == v.Pkg().Scope() {
+					return true
+				}
+				if sig.Recv() != nil && o == types.Object(sig.Recv()) {
+					return true
+				}
+				k := paramOrigin(fd, o, depth+1)
+				if k >= 0 {
+					if res == -2 || res == k {
+						res = k
+					} else {
+						res = -1
+					}
+				}
+				return true
+			})
+		}
+		return true
+	})
+	if res == -2 {
+		return -1
+	}
+	return res
 }
 
 func roleWord(s string) string {
